@@ -901,12 +901,16 @@ func c19sEnumerate(thorough bool, visit func(tc c19sCase) bool) {
 	pads := []string{"zeros", "noise"}
 	ks := []int{0, 1, -1}
 
-	serverShapes := []string{"unary", "client-stream", "bidi-half", "bidi-full"}
+	// The side-effect-free procedure (IdempotentUnary) is a procedure of its own on the
+	// server: handler options - the receive limit among them - are per procedure, so
+	// the server-side grid contains it in both tiers. The reference client sends it
+	// as GET (message in the URL) under the Connect protocol and as POST under gRPC
+	// and gRPC-Web, so both ways of delivering the message are covered.
+	serverShapes := []string{"unary", "idempotent-unary", "client-stream", "bidi-half", "bidi-full"}
 	clientShapes := []string{"unary", "client-stream", "server-stream", "bidi-half", "bidi-full"}
 	serverLimits := []int{1024, 200}
 	clientSizes := []int{4000, 64}
 	if thorough {
-		serverShapes = append(serverShapes, "idempotent-unary")
 		clientShapes = append(clientShapes, "idempotent-unary")
 		serverLimits = []int{1024, 200, 128, 16384, 200 * 1024}
 		clientSizes = []int{4000, 64, 16384, 210 * 1024}
